@@ -41,6 +41,7 @@ class Unit:
         self.stub_only = False
         self.vacuity = True         # include in the ensures-false vacuity probe
         self.labels = {}            # clause label -> (section, text) for reporting
+        self.assoc_types = True     # emit the source impl's `type X = ..;` members
 
 
 def _parse_rewrite(line, path):
@@ -161,6 +162,8 @@ def parse_units(path):
                     cur.profiles = v
                 elif k == "trusted":
                     cur.trusted = v
+                elif k == "assoc_types":
+                    cur.assoc_types = v == "true"
                 elif k == "vacuity":
                     cur.vacuity = v == "true"
                 else:
